@@ -266,6 +266,15 @@ def rows(S):
         out.append(Row(f"{fam_}: from_mean_and_std(std) does not match the mean container", "Taylor-coefficient containers", sm, "ValueError", ["bad0", "bad1"], sibling="std-matches-mean",
                        cond_pred=lambda c: c.op != "try_fails" and {"m0", "m1"} & T.atoms_of(c) and {"bad0", "bad1"} & T.atoms_of(c)))
 
+    # (a') a std container that is a proper prefix of a matching one (concrete: the comparison of the two containers must see the length, a pairwise zip does not)
+    for fam_, ncls_ in (("dense", DENSE + ".DenseNormal"), ("blockdiag", BLOCK + ".BlockDiagNormal")):
+        def sm_short(it, n=ncls_):
+            cv = it.class_value(n)
+            m = [arr("m0"), arr("m0"), arr("m0")]
+            call(it, it.getattr(cv, "from_mean_and_std", None), m, [m[0]])
+
+        out.append(Row(f"{fam_}: from_mean_and_std(std) shorter than the mean container", "Taylor-coefficient containers", sm_short, "ValueError", [], mode="raise", sibling="std-shorter-than-mean"))
+
     # (b) zeroth-order constraint on a state with fewer coefficients than the ODE constrains
     for qual_, fam_ in ((DENSE + ".DenseOdeTs0", "dense"), (ISO + ".IsotropicOdeTs0", "isotropic"), (BLOCK + ".BlockDiagOdeTs0", "blockdiag")):
         def ts0_short(it, q=qual_, fam=fam_):
@@ -338,6 +347,14 @@ def rows(S):
 
     out.append(Row("dense: exponential prior with mismatching ODE order", "exponential prior", expo, "TypeError", [], mode="raise"))
 
+    def expo_low(it):
+        # the other direction: an ODE of LOWER order than the state has coefficients (order 1 against two coefficients)
+        ssm = mk_ssm(it, DENSE + ".state_space_model_dense")
+        ode = it.instantiate(it.class_value(PROBLEMS + ".JetOdeAutonomous"), [A("auto")], dict(jacobian=A("jac"), num_tcoeffs_in_args=1, tcoeff_indices_output=[1]), "<harness>")
+        call(it, method(it, ssm, "prior_exponential_diffuse"), ode, mean2(), std2())
+
+    out.append(Row("dense: exponential prior with an ODE of lower order than the state", "exponential prior", expo_low, "TypeError", [], mode="raise"))
+
     # lift orders
     def lift_type(it):
         call(it, method(it, res(it), "jet_lift"), lift_by=1.5)
@@ -355,6 +372,13 @@ def rows(S):
         it.call(lifted.fields["residual_function"], [], {"jet_coords": [arr("c0"), arr("c1"), arr("c2")], "t": A("t")}, "<harness>")
 
     out.append(Row("lifted residual: lift order exceeds the supplied coefficients", "jet lifting", lift_range, "ValueError", [], mode="raise"))
+
+    def lift_range_boundary(it):
+        # the smallest inadmissible order: a residual on two coefficients, three supplied, lifted by two (admissible: 0 and 1)
+        lifted = call(it, method(it, res(it, 2), "jet_lift"), lift_by=2)
+        it.call(lifted.fields["residual_function"], [], {"jet_coords": [arr("c0"), arr("c1"), arr("c2")], "t": A("t")}, "<harness>")
+
+    out.append(Row("lifted residual: lift order exceeds the supplied coefficients by one", "jet lifting", lift_range_boundary, "ValueError", [], mode="raise"))
 
     def lift_neg(it):
         lifted = call(it, method(it, res(it, 2), "jet_lift"), lift_by=-1)
